@@ -325,11 +325,13 @@ class Ctx:
             if sub and len(sub) < len(cons) - 1:
                 s0 = z3.Solver()
                 s0.set('timeout', 250)
+                s0.set('rlimit', 2000000)
                 for c in sub:
                     s0.add(c)
                 s0.add(extra)
                 t = time.time()
-                r0 = s0.check()
+                from . import solve as _solve
+                r0 = _solve.guarded_check(s0, 250)
                 self.stats['feas_time'] += time.time() - t
                 if r0 == z3.unsat:
                     self.stats['feas_queries'] += 1
@@ -337,12 +339,13 @@ class Ctx:
                     return z3.unsat
         s = z3.Solver()
         s.set('timeout', max(100, self.feas_tmo // 4))
+        s.set('rlimit', 3000000)
         for c in cons:
             s.add(c)
         t = time.time()
-        r = s.check()
+        from . import solve
+        r = solve.guarded_check(s, max(100, self.feas_tmo // 4))
         if r == z3.unknown:
-            from . import solve
             st, _ = solve.cvc5_inproc(cons, self.feas_tmo)
             self.stats['cvc5_feas'] = self.stats.get('cvc5_feas', 0) + 1
             if st == 'unsat':
@@ -865,6 +868,8 @@ def _angle_compared(*xs):
     if names:
         from . import trig
         trig.materialise(names)
+        if len(set(names)) > 1:
+            trig.need_value(names)
 
 
 def _record_div(den, fv=None):
@@ -929,14 +934,16 @@ def sym_sqrt(x):
                 for c in cons:
                     s.add(c)
                 s.add(ct < 0)
-                ok = s.check() == z3.unsat
+                from . import solve as _sv
+                ok = _sv.guarded_check(s, CTX.sqrt_tmo) == z3.unsat
         elif not str(_info).startswith('normal form not zero'):
             s = z3.Solver()
             s.set('timeout', CTX.sqrt_tmo)
             for c in cons:
                 s.add(c)
             s.add(z3.Or(x.t != ct * ct, ct < 0))
-            ok = s.check() == z3.unsat
+            from . import solve as _sv
+            ok = _sv.guarded_check(s, CTX.sqrt_tmo) == z3.unsat
         CTX.stats['feas_time'] += time.time() - t0
         if ok:
             out = cand
@@ -1002,9 +1009,20 @@ def sym_mod(x, m):
             return general()
         inner = general() if not (d0 is None and dm is None and dp is False) else None
         fv = _fop(_np.mod, x, m)
+        # modulo a whole number of turns the angle is unchanged as far as sin / cos are concerned
+        lin = None
+        pm = PiPoly.of(builtins.float(mc)) if True else None
+        if isinstance(x, SR) and x.lin is not None and pm is not None:
+            kk = pm.pi_rational()
+            if kk is None:
+                kk2 = F(builtins.float(mc) / (2 * math.pi)).limit_denominator(1000)
+                if abs(builtins.float(kk2) * 2 * math.pi - builtins.float(mc)) < 1e-12:
+                    kk = 2 * kk2
+            if kk is not None and kk % 2 == 0:
+                lin = x.lin
         if inner is None:
-            return SR(z3.If(c0, xt, xt + mt), None, None, fv)
-        return SR(z3.If(c0, xt, z3.If(cm, xt + mt, z3.If(cp, xt - mt, lift(inner)))), None, None, fv)
+            return SR(z3.If(c0, xt, xt + mt), lin, None, fv)
+        return SR(z3.If(c0, xt, z3.If(cm, xt + mt, z3.If(cp, xt - mt, lift(inner)))), lin, None, fv)
     return _mod_general(x, xt, mt, m)
 
 
